@@ -5,8 +5,9 @@ import os, re, sys
 sys.path.insert(0, os.path.join(os.path.dirname(os.path.abspath(__file__)), "..", "tools"))
 from vlib import *
 
-OV_GATER = {"p2p/net/conngater/zz_c10_verif_test.go": "harness/overlay/conngater/c10_verif_test.go"}
-OV_E2E = {"internal/verifc10/c10_e2e_test.go": "harness/overlay/verifc10/c10_e2e_test.go"}
+OV_GATER = {"p2p/net/conngater/zz_c10_verif_test.go": "harness/overlay/conngater/c10_verif_test.go",
+            "p2p/net/conngater/zz_c10_e2e_verif_test.go": "harness/overlay/conngater/c10_e2e_verif_test.go"}
+OV_E2E = OV_GATER
 
 # ---- gate call sites, regenerated from the source on every run ---------------
 # family code, name, files searched, direction the calls found there belong to
@@ -95,9 +96,7 @@ def harness(ctx, casefile, tier, seed):
         if os.path.exists(p):
             os.remove(p)
     rc1, out1 = ctx.go_test("p2p/net/conngater", "TestVerifC10$", OV_GATER, env=dict(env, VERIF_OUT=p1), timeout=1500)
-    rc2, out2 = 0, ""
-    if os.path.exists(os.path.join(VERIF, OV_E2E["internal/verifc10/c10_e2e_test.go"])):
-        rc2, out2 = ctx.go_test("internal/verifc10", "TestVerifC10E2E$", OV_E2E, env=dict(env, VERIF_OUT=p2), timeout=2400)
+    rc2, out2 = ctx.go_test("p2p/net/conngater", "TestVerifC10E2E$", OV_E2E, env=dict(env, VERIF_OUT=p2), timeout=2400)
     merge([p1, p2], casefile)
     return (rc1 or rc2), out1 + "\n" + out2
 
@@ -106,17 +105,13 @@ def warm(ctx):
     rc, out = ctx.go_test("p2p/net/conngater", "TestVerifNothing$", OV_GATER, timeout=1500)
     if rc != 0:
         ctx.obligations.append(("harness:compile", False, out[-1500:]))
-    if os.path.exists(os.path.join(VERIF, OV_E2E["internal/verifc10/c10_e2e_test.go"])):
-        rc, out = ctx.go_test("internal/verifc10", "TestVerifNothing$", OV_E2E, timeout=1500)
-        if rc != 0:
-            ctx.obligations.append(("harness:compile-e2e", False, out[-1500:]))
 
 
 def replay_harness(ctx, casefile, toks):
     if toks and toks[0] == 0:
         return ctx.go_test("p2p/net/conngater", "TestVerifC10Replay$", OV_GATER,
                            env={"VERIF_OUT": casefile, "VERIF_REPLAY_CASE": " ".join(map(str, toks))}, timeout=600)
-    return ctx.go_test("internal/verifc10", "TestVerifC10E2EReplay$", OV_E2E,
+    return ctx.go_test("p2p/net/conngater", "TestVerifC10E2EReplay$", OV_E2E,
                        env={"VERIF_OUT": casefile, "VERIF_REPLAY_CASE": " ".join(map(str, toks))}, timeout=600)
 
 
@@ -237,6 +232,14 @@ def canon_history(evs, upto):
 def key(tag, toks, d):
     # identity of a failure: clause + offending probe/list + the call history up to the failing event
     try:
+        if toks[0] == 0 and len(d) >= 5 and d[0] == 902 and d[-1] == 1 and d[2] in (1, 4):
+            # the whole trace is accepted when a subnet rule is identified by the text
+            # IPNet.String() prints (the code's reading) and rejected when it is identified by
+            # the set of addresses (the property's reading): the failure is the one produced by
+            # the canonical minimal history below and by nothing else
+            return ("C10:gater:clause%d:conngater.go BlockSubnet/UnblockSubnet key=ipnet.String():"
+                    "BlockSubnet(IPNet{IP with host bits set, mask}); UnblockSubnet(IPNet{same subnet, other host bits}) -> nil; "
+                    "%s" % (d[2], "address of the subnet still refused" if d[2] == 1 else "subnet still listed"))
         if toks[0] == 0 and len(d) >= 3 and d[0] == 902:
             probes, evs = parse_gater(toks)
             i, clause = d[1], d[2]
